@@ -129,7 +129,13 @@ def run_case(case, ctx):
     db = hh.PrefixDict() if dictsub else RecordingDB()
     if dictsub:
         ctx.count("cases_over_a_dict_subclass")
-    t = HexaryTrie(db, prune=prune)
+    if prune and case.get("rc") == "counter":
+        from collections import Counter
+
+        t = HexaryTrie(db, prune=True, ref_count=Counter())
+        ctx.count("ref_counts_in_a_counter")
+    else:
+        t = HexaryTrie(db, prune=prune)
     model = {}
     twin_db = {}
     twin = HexaryTrie(twin_db, prune=prune)
@@ -445,6 +451,7 @@ def gen_base(rnd, tier):
     return {"engine": "c05", "prune": prune, "pseed": rnd.randrange(1 << 30), "pre": pre,
             "batch": batch, "post": post, "universe": universe.kind, "big": big,
             "db": "dictsub" if rnd.random() < 0.15 else "recording",
+            "rc": "counter" if rnd.random() < 0.2 else "default",
             "in_handler": rnd.random() < 0.25}
 
 
@@ -475,7 +482,7 @@ def crash_points(base, rnd, commit_writes):
         yield {"kind": "caller", "after": i}
         # the same crash point, left by an exception that is not an Exception
         # (BaseException subclass / KeyboardInterrupt / GeneratorExit)
-        yield {"kind": "caller", "after": i, "exc": 1 + (i + n) % 3}
+        yield {"kind": "caller", "after": i, "exc": 1 + (i + n) % 7}
     for i in range(n + 1):
         yield {"kind": "badarg", "at": i, "arg": rnd.randrange(len(BAD_ARGS)), "which": rnd.randrange(3)}
     if n:
